@@ -1,5 +1,5 @@
 import LexVerif.Model.Binary
-import LexVerif.Proof.Tables.LargePowers
+import LexVerif.Proof.Tables.LargePowersDefs
 /-!
 # Model.Slow — the big-integer slow path (lexical-parse-float/src/slow.rs, bigint.rs)
 
